@@ -54,7 +54,7 @@ structure St where
   retries : Nat       -- local `retries` of set()
   timeout : Nat       -- local `timeout` of set(), ms
   phase : Phase
-  tracking : Bool     -- `is_tracking_changes` (device.has_frame_version(<parameters request>))
+  tracking : Bool     -- `is_tracking_changes` (device.has_frame_version(<parameters request>)), evaluated once per attempt
   hold : Bool         -- request construction suspends (executor held by the harness)
   now : Nat           -- virtual clock, ms
   wake : Nat          -- due time of the pending sleep
@@ -66,6 +66,7 @@ inductive Ev
   | report (t : Triple)  -- controller report for this parameter reaches `update`
   | wait (d : Nat)       -- the clock advances by `d` ms without reaching the wake-up time
   | timer                -- the clock jumps to the wake-up time, the sleep ends
+  | setTracking (b : Bool)  -- `device.has_frame_version(<parameters request>)` becomes b (a frame-versions announcement)
 deriving Repr, DecidableEq, Inhabited
 
 inductive Out
@@ -114,6 +115,7 @@ def step (s : St) : Ev → St × List Out
   | .timer =>
     if s.phase ≠ .sleeping then (s, [])
     else loopTop { s with now := s.wake, retries := s.retries - 1 }
+  | .setTracking b => ({ s with tracking := b }, [])   -- read again at every attempt, after the set request is queued
 
 /-- final state and all outputs, in order -/
 def run (s : St) : List Ev → St × List Out
@@ -124,6 +126,11 @@ def run (s : St) : List Ev → St × List Out
 def runGroups (s : St) : List Ev → List (List Out)
   | [] => []
   | e :: es => let r := step s e; r.2 :: runGroups r.1 es
+
+/-- the outputs, each tagged with the value `is_tracking_changes` has during the step that produced it -/
+def tagged (s : St) : List Ev → List (Out × Bool)
+  | [] => []
+  | e :: es => (step s e).2.map (fun o => (o, (step s e).1.tracking)) ++ tagged (step s e).1 es
 
 def init (loc : Triple) (tracking hold : Bool) (now : Nat) : St :=
   { loc, prev := 0, pending := false, req := 0, cap := 0, retries := 0, timeout := 0,
